@@ -3,6 +3,8 @@
 A path is identified by the list of decisions taken at symbolic choice points.  The
 function under verification is re-executed from fresh inputs for each path.
 """
+import os
+
 try:
     import z3
 except ImportError:      # replays run under the repository's interpreter, without z3
@@ -28,17 +30,39 @@ class Unsupported(Exception):
 
 FORCE_FORK = 'F'
 MERGE = 'M'
+LOCAL = 'Q'
 
-FEAS_TIMEOUT_MS = 1500
-SITE_TIMEOUT_MS = 250      # "is this operand of and/or already decided?": only an optimisation, asked often
+
+class QFrame:
+    """One local run of a quantifier body: the local decisions taken / still to explore."""
+
+    def __init__(self, prefix):
+        self.prefix = list(prefix)
+        self.decisions = []        # (condition term, decision)
+        self.pending = []
+
+FEAS_TIMEOUT_MS = 5000
+MUST_HOLD_TIMEOUT_MS = 1000     # entailment probes (piece sharing, short-circuit sites): `unknown` is "not entailed" (sound)
+SITE_TIMEOUT_MS = 500
+INCREMENTAL_TIMEOUT_MS = 1000
 
 
 def _conjuncts(t):
+    """top-level conjuncts, looking through double negation and negated disjunctions"""
     if z3.is_and(t):
         out = []
         for c in t.children():
             out.extend(_conjuncts(c))
         return out
+    if z3.is_not(t):
+        x = t.arg(0)
+        if z3.is_not(x):
+            return _conjuncts(x.arg(0))
+        if z3.is_or(x):
+            out = []
+            for c in x.children():
+                out.extend(_conjuncts(z3.Not(c)))
+            return out
     return [t]
 
 
@@ -64,21 +88,6 @@ def _has_regex(t):
     return _flags(t)[2]
 
 
-def _has_quantifier_uncached(t):
-    seen = set()
-    todo = [t]
-    while todo:
-        x = todo.pop()
-        i = x.get_id()
-        if i in seen:
-            continue
-        seen.add(i)
-        if z3.is_quantifier(x):
-            return True
-        todo.extend(x.children())
-    return False
-
-
 def _has_regex_uncached(t):
     seen = set()
     todo = [t]
@@ -95,14 +104,202 @@ def _has_regex_uncached(t):
     return False
 
 
+def _has_quantifier_uncached(t):
+    seen = set()
+    todo = [t]
+    while todo:
+        x = todo.pop()
+        i = x.get_id()
+        if i in seen:
+            continue
+        seen.add(i)
+        if z3.is_quantifier(x):
+            return True
+        todo.extend(x.children())
+    return False
+
+
+_ARITH_OPS = None
+
+
+def _arith_ops():
+    global _ARITH_OPS
+    if _ARITH_OPS is None:
+        _ARITH_OPS = {z3.Z3_OP_ADD, z3.Z3_OP_SUB, z3.Z3_OP_MUL, z3.Z3_OP_UMINUS, z3.Z3_OP_LE, z3.Z3_OP_LT,
+                      z3.Z3_OP_GE, z3.Z3_OP_GT, z3.Z3_OP_EQ, z3.Z3_OP_DISTINCT, z3.Z3_OP_ITE, z3.Z3_OP_AND,
+                      z3.Z3_OP_OR, z3.Z3_OP_NOT, z3.Z3_OP_IMPLIES, z3.Z3_OP_IFF, z3.Z3_OP_TRUE, z3.Z3_OP_FALSE,
+                      z3.Z3_OP_ANUM, z3.Z3_OP_IDIV, z3.Z3_OP_MOD}
+    return _ARITH_OPS
+
+
+def is_length_arith(t, _memo=None):
+    """t is built from integer arithmetic, propositional structure, integer/boolean constants and
+    lengths of strings only (the strings themselves are not inspected)."""
+    if _memo is None:
+        _memo = {}
+    i = t.get_id()
+    r = _memo.get(i)
+    if r is not None:
+        return r
+    r = False
+    if z3.is_quantifier(t) or not z3.is_app(t):
+        r = False
+    elif not (z3.is_int(t) or z3.is_bool(t)):
+        r = False
+    else:
+        k = t.decl().kind()
+        if k == z3.Z3_OP_SEQ_LENGTH:
+            r = True
+        elif k == z3.Z3_OP_UNINTERPRETED:
+            # a constant, or an application of an uninterpreted function (an opaque integer / boolean term: its
+            # arguments are not inspected, the solver keeps congruence for syntactically equal arguments)
+            r = True
+        elif k in _arith_ops():
+            r = all(is_length_arith(c, _memo) for c in t.children())
+    _memo[i] = r
+    return r
+
+
+_LIA = {}        # term id -> (term kept alive, pure-LIA image, side facts)
+
+
+def _len_term(s, side):
+    """the length of the string term s as a term of pure linear integer arithmetic: literals are measured,
+    concatenations summed, every other string term gets an integer constant (>= 0)"""
+    i = s.get_id()
+    ent = _LIA.get(i)
+    if ent is not None:
+        side.extend(ent[2])
+        return ent[1]
+    mine = []
+    if z3.is_string_value(s):
+        r = z3.simplify(z3.Length(s))
+        if not z3.is_int_value(r):
+            r = None
+    elif z3.is_app(s) and s.decl().kind() == z3.Z3_OP_SEQ_CONCAT:
+        r = z3.Sum([_len_term(c, mine) for c in s.children()])
+    elif z3.is_app(s) and s.decl().kind() == z3.Z3_OP_ITE:
+        c = length_abstraction(s.arg(0), mine)
+        r = z3.If(c, _len_term(s.arg(1), mine), _len_term(s.arg(2), mine)) if c is not None else None
+    else:
+        r = None
+    if r is None:
+        r = z3.Int('len!%d' % i)
+        mine.append(r >= 0)
+    if len(_LIA) > 400000:
+        _LIA.clear()
+    _LIA[i] = (s, r, tuple(mine))
+    side.extend(mine)
+    return r
+
+
+def _lia(t, side):
+    """A length-arithmetic term (is_length_arith) without string-sorted subterms: Length(s) becomes the integer
+    term _len_term(s), applications of uninterpreted functions become constants (one per application).  The
+    length solver then works in pure linear arithmetic (no sequence theory, no arrays): same answers on
+    lengths, much faster."""
+    i = t.get_id()
+    ent = _LIA.get(i)
+    if ent is not None:
+        side.extend(ent[2])
+        return ent[1]
+    mine = []
+    k = t.decl().kind()
+    if k == z3.Z3_OP_SEQ_LENGTH:
+        a = t.arg(0)
+        r = _len_term(a, mine) if z3.is_string(a) else z3.Int('opq!%d' % i)
+    elif k == z3.Z3_OP_UNINTERPRETED:
+        if t.num_args() == 0:
+            r = t
+        else:
+            r = z3.Int('opq!%d' % i) if z3.is_int(t) else z3.Bool('opq!%d' % i)
+    elif t.num_args() == 0:
+        r = t
+    else:
+        r = t.decl()(*[_lia(c, mine) for c in t.children()])
+    if len(_LIA) > 400000:
+        _LIA.clear()
+    _LIA[i] = (t, r, tuple(mine))
+    side.extend(mine)
+    return r
+
+
+_ATOMS = {}      # term id -> (term, propositional constant): atoms that are not about lengths
+
+
+def _atom(t):
+    """The propositional constant that stands for the atom t in the length abstraction, and the consequences of t
+    (resp. of its negation) for lengths: (constant, [side facts])."""
+    i = t.get_id()
+    ent = _ATOMS.get(i)
+    if ent is None:
+        ent = (t, z3.Bool('atom!%d' % i))
+        _ATOMS[i] = ent          # (keeps t alive: its id is not reused)
+    b = ent[1]
+    side = []
+    if z3.is_app(t):
+        k = t.decl().kind()
+        if k == z3.Z3_OP_EQ and z3.is_string(t.arg(0)):
+            side.append(z3.Implies(b, _len_term(t.arg(0), side) == _len_term(t.arg(1), side)))
+        elif k in (z3.Z3_OP_SEQ_PREFIX, z3.Z3_OP_SEQ_SUFFIX):
+            side.append(z3.Implies(b, _len_term(t.arg(0), side) <= _len_term(t.arg(1), side)))
+        elif k == z3.Z3_OP_SEQ_CONTAINS:
+            side.append(z3.Implies(b, _len_term(t.arg(1), side) <= _len_term(t.arg(0), side)))
+    return b, side
+
+
+def length_abstraction(t, side=None):
+    """The length abstraction of a quantifier-free formula: its propositional structure is kept, atoms about
+    integers and string lengths are kept, every other atom becomes a propositional constant (the same constant
+    for the same atom) with its consequences for lengths (`a == b` ==> equal lengths, prefix / contains ==>
+    not longer) collected in `side`.  Every model of a set of formulas gives a model of their abstractions, so
+    what the abstraction entails is entailed."""
+    if side is None:
+        side = []
+    if is_length_arith(t):
+        return _lia(t, side)
+    if z3.is_quantifier(t) or not z3.is_app(t) or not z3.is_bool(t):
+        return None
+    k = t.decl().kind()
+    if k in (z3.Z3_OP_AND, z3.Z3_OP_OR, z3.Z3_OP_NOT, z3.Z3_OP_IMPLIES, z3.Z3_OP_IFF) or \
+            (k == z3.Z3_OP_EQ and z3.is_bool(t.arg(0))) or (k == z3.Z3_OP_ITE):
+        parts = []
+        for c in t.children():
+            x = length_abstraction(c, side)
+            if x is None:
+                return None
+            parts.append(x)
+        if k == z3.Z3_OP_AND:
+            return z3.And(*parts)
+        if k == z3.Z3_OP_OR:
+            return z3.Or(*parts)
+        if k == z3.Z3_OP_NOT:
+            return z3.Not(parts[0])
+        if k == z3.Z3_OP_IMPLIES:
+            return z3.Implies(parts[0], parts[1])
+        if k == z3.Z3_OP_ITE:
+            return z3.If(parts[0], parts[1], parts[2])
+        return parts[0] == parts[1]
+    b, more = _atom(t)
+    side.extend(more)
+    return b
+
+
 class PathState:
     def __init__(self, prefix, stats):
         self.prefix = list(prefix)
         self.decisions = []
         self.pending = []          # alternative prefixes discovered on this run
-        self.reached = set()       # line numbers of the return / raise statements of the function under verification
+        self.on_fact = None        # hook(term): called when a fact is added to the context (equality learning)
         self.solver = z3.Solver()
-        self.solver.set('timeout', FEAS_TIMEOUT_MS)
+        self.solver.set('timeout', INCREMENTAL_TIMEOUT_MS)
+        self._incremental_lost = 0 # number of `unknown` answers of the incremental solver on this path
+        self._fresh_timeout = FEAS_TIMEOUT_MS
+        self._len_memo = {}        # must_hold_lengths: (term id, scope ids) -> (len(pc), answer, term kept alive)
+        self.established = {}      # ids of terms that are conjuncts of the (unscoped) path condition
+        self._not_established = {} # term id -> len(pc) when it was last found not to be entailed
+        self.len_solver = z3.Solver()   # integers and string lengths only (abstraction of pc): boundary questions
+        self.len_solver.set('timeout', 2000)
         self.pc = []               # permanent conjuncts (z3 terms)
         self.scopes = []           # temporary assumptions (merge scopes)
         self.counters = {}
@@ -119,10 +316,9 @@ class PathState:
         self.side_conditions = []  # stack: in-range conditions collected inside quantifier bodies
         self.fresh_log = []        # every fresh constant, in creation order (for skolemisation in quantifiers)
         self.no_fork = 0           # >0 inside quantifier bodies: a real fork is not allowed
+        self.qframes = []          # local case splits of quantifier bodies (merged by the quantifier model)
         self.known = {}            # z3 term id -> list of (frozenset(scope ids), bool): entailed truth values
-        self.on_fact = None        # hook(term): called when a fact is added to the context (equality learning)
-        from .lenabs import LenAbs
-        self.lenabs = LenAbs()     # what the context says about string lengths, in pure LIA
+        self.reached = set()       # line numbers of return/raise statements reached (reachability cover)
 
     # ---- naming -----------------------------------------------------------------
     def fresh_name(self, base):
@@ -166,6 +362,15 @@ class PathState:
         if self.on_fact is not None:
             self.on_fact(t)
 
+    def assume_unscoped(self, cond):
+        """A fact about a symbolic object itself (shape constraint, invariant): the object is cached and
+        outlives the merge scope it happens to be created in, so the fact must not be guarded by it."""
+        if isinstance(cond, bool):
+            if not cond:
+                self.assume(cond)
+            return
+        self._add(cond.t if isinstance(cond, SBool) else cond)
+
     def _add(self, t):
         self.pc.append(t)
         # The feasibility solver only sees quantifier-free facts: satisfiability of quantified
@@ -174,10 +379,16 @@ class PathState:
         # ... nor regular-expression membership facts: with them in the context the solver has been seen to
         # run far beyond its timeout on unrelated questions.
         for c in _conjuncts(t):
+            self.established[c.get_id()] = c
             if not _has_quantifier(c):
                 if not _has_regex(c):
                     self.solver.add(c)
-                self.lenabs.add(c)
+                side = []
+                la = length_abstraction(c, side)
+                if la is not None:
+                    self.len_solver.add(la)
+                for f in side:
+                    self.len_solver.add(f)
 
     def proof_step(self, cond):
         """A step of a proof in progress has just been recorded as an obligation: the rest of that proof may
@@ -191,40 +402,117 @@ class PathState:
         if z3.is_true(t):
             return
         self.scopes.append(t)
-        self._keep = getattr(self, '_keep', [])
-        self._keep.append(t)
         if self.on_fact is not None:
             self.on_fact(t)
 
-    def axiom(self, t):
-        """Add an instance of a universally valid fact: holds in every context, so it is not scoped."""
-        self._add(t)
+    def is_established(self, t):
+        """t (the condition of a merge scope that has been left) is known to hold on this path: it is a
+        conjunct of the path condition, or entailed by it (checked once the path condition has grown)."""
+        i = t.get_id()
+        if i in self.established:
+            return True
+        if any(x.get_id() == i for x in self.scopes):
+            return True
+        if self._not_established.get(i) == len(self.pc):
+            return False
+        cs = _conjuncts(t)
+        if len(cs) > 1 and all(self.is_established(c) for c in cs):
+            self.established[i] = t
+            return True
+        if not _has_quantifier(t) and self.must_hold(t):
+            self.established[i] = t
+            return True
+        self._not_established[i] = len(self.pc)
+        return False
+
+    def reset_pc(self, keep):
+        """Replace the path condition by a subset of its conjuncts (forgetting facts is sound: obligations
+        are proved from what remains)."""
+        self.pc[:] = list(keep)
+        self._len_memo = {}
+        self.solver = z3.Solver()
+        self.solver.set('timeout', INCREMENTAL_TIMEOUT_MS)
+        self.len_solver = z3.Solver()
+        self.len_solver.set('timeout', 2000)
+        for t in self.pc:
+            for c in _conjuncts(t):
+                if not _has_quantifier(c):
+                    if not _has_regex(c):
+                        self.solver.add(c)
+                    side = []
+                    la = length_abstraction(c, side)
+                    if la is not None:
+                        self.len_solver.add(la)
+                    for f in side:
+                        self.len_solver.add(f)
 
     def check(self, *extra, timeout_ms=None):
         """sat / unsat / unknown of pc + scopes + extra."""
         self.stats['feasibility_queries'] = self.stats.get('feasibility_queries', 0) + 1
         import time as _t
         t0 = _t.time()
-        if timeout_ms is not None:
-            self.solver.set('timeout', timeout_ms)
-        try:
-            r = self.solver.check(*([x for x in self.scopes if not _has_quantifier(x) and not _has_regex(x)] + list(extra)))
-        finally:
+        assumptions = [x for x in self.scopes if not _has_quantifier(x) and not _has_regex(x)] + list(extra)
+        if self._incremental_lost < 3:
             if timeout_ms is not None:
-                self.solver.set('timeout', FEAS_TIMEOUT_MS)
+                self.solver.set('timeout', timeout_ms)
+            try:
+                r = self.solver.check(*assumptions)
+            finally:
+                if timeout_ms is not None:
+                    self.solver.set('timeout', INCREMENTAL_TIMEOUT_MS)
+            if r == z3.unknown and timeout_ms is None:
+                self._incremental_lost += 1
+        else:
+            r = z3.unknown
+        if r == z3.unknown:
+            # z3's incremental mode is much weaker on strings than a fresh solver on the same assertions
+            fresh = z3.Solver()
+            fresh.set('timeout', self._fresh_timeout if timeout_ms is None else min(timeout_ms, self._fresh_timeout))
+            fresh.add(self.solver.assertions())
+            fresh.add(*assumptions)
+            r = fresh.check()
+            if r == z3.unknown and timeout_ms is None:
+                # the path condition is beyond the solver: do not spend the full budget on every later question
+                # of this path (unknown = explore, which is sound)
+                self._fresh_timeout = max(300, self._fresh_timeout // 2)
         dt = _t.time() - t0
+        if dt > 1.0 and os.environ.get('PYVC_DUMP_SLOW'):
+            k = self.stats.get('n_dumped', 0)
+            self.stats['n_dumped'] = k + 1
+            if k < 5:
+                sv = z3.Solver()
+                sv.add(self.solver.assertions())
+                sv.add(*([x for x in self.scopes if not _has_quantifier(x)] + list(extra)))
+                with open(os.path.join(os.environ['PYVC_DUMP_SLOW'], 'slow%d.smt2' % k), 'w') as f:
+                    f.write('; %s %.2fs\n' % (r, dt) + sv.to_smt2())
         if dt > 1.0:
             self.stats.setdefault('slow_queries', []).append((round(dt, 2), str(r), [str(e)[:200] for e in extra]))
+            import os as _os
+            if _os.environ.get('PYVC_DUMP_SLOW'):
+                k = self.stats['feasibility_queries']
+                s2 = z3.Solver()
+                s2.add(*(list(self.pc)))
+                with open('%s-%d.smt2' % (_os.environ['PYVC_DUMP_SLOW'], k), 'w') as f:
+                    f.write('; %.2fs %s\n' % (dt, r) + s2.to_smt2())
+                s2 = z3.Solver()
+                s2.add(*(list(self.scopes) + list(extra)))
+                with open('%s-%d-assumptions.smt2' % (_os.environ['PYVC_DUMP_SLOW'], k), 'w') as f:
+                    f.write('; %.2fs %s\n' % (dt, r) + s2.to_smt2())
         return r
 
-    def len_must_hold(self, t):
-        """True only if ``t`` (a fact about offsets / lengths) is entailed: decided on the length
-        abstraction of the context, never by the string solver."""
-        self.stats['length_queries'] = self.stats.get('length_queries', 0) + 1
-        return self.lenabs.must_hold(t, self.scopes)
+    def infeasible_site(self):
+        """True iff the current assumptions (pc + scopes) are contradictory.  The answer is recorded in the
+        decision log so that replays of the path do not ask the solver again."""
+        d = self._next_decision()
+        if d in ('cu', 'cs'):
+            self.decisions.append(d)
+            return d == 'cu'
+        d = 'cu' if self.check() == z3.unsat else 'cs'
+        self.decisions.append(d)
+        return d == 'cu'
 
     def is_feasible(self, t):
-        if self.lenabs.infeasible(t, self.scopes):
+        if is_length_arith(t) and self._len_check(t) == z3.unsat:
             return False
         if _has_regex(t):
             # (never asked to the solver inside a big context: it may not come back; explore both sides)
@@ -236,12 +524,57 @@ class PathState:
             return True       # over-approximate: explore
         return r == z3.sat
 
-    def must_hold(self, t, timeout_ms=None):
-        """True iff ``t`` is entailed by the current path condition (+ scopes)."""
-        if self.lenabs.must_hold(t, self.scopes):
-            return True
+    def must_hold(self, t, timeout_ms=MUST_HOLD_TIMEOUT_MS):
+        """True iff ``t`` is (quickly shown to be) entailed by the current path condition (+ scopes)."""
         r = self.check(z3.Not(t), timeout_ms=timeout_ms)
         return r == z3.unsat
+
+    def _len_check(self, t):
+        sc = []
+        for x in self.scopes:
+            la = length_abstraction(x, sc)
+            if la is not None:
+                sc.append(la)
+        self.stats['length_queries'] = self.stats.get('length_queries', 0) + 1
+        la = length_abstraction(t, sc)
+        return self.len_solver.check(*(sc + [la if la is not None else t]))
+
+    def _fork_by_lengths(self, t):
+        """A branch condition about integers / string lengths that the length abstraction of the path
+        condition already decides: (can_be_true, can_be_false), else None."""
+        if not is_length_arith(t):
+            return None
+        rt = self._len_check(t)
+        if rt == z3.unsat:
+            return (False, True)
+        rf = self._len_check(z3.Not(t))
+        if rf == z3.unsat:
+            return (True, False)
+        return None
+
+    def must_hold_lengths(self, t):
+        """Entailment of a question about integers and string lengths, decided on the length abstraction of
+        the path condition (sound: the abstraction is implied by the path condition; string facts beyond
+        lengths are not used).  Fast and independent of the string solver."""
+        if not is_length_arith(t):
+            return self.must_hold(t)
+        self.stats['length_queries'] = self.stats.get('length_queries', 0) + 1
+        # (memo: the context only grows -- except in reset_pc, which clears the memo -- so what was entailed
+        # under the same scopes still is; what was not is asked again only after new facts)
+        key = (t.get_id(), tuple(x.get_id() for x in self.scopes))
+        ent = self._len_memo.get(key)
+        n_facts = len(self.pc)
+        if ent is not None and (ent[1] or ent[0] == n_facts):
+            return ent[1]
+        sc = []
+        for x in self.scopes:
+            la = length_abstraction(x, sc)
+            if la is not None:
+                sc.append(la)
+        goal = _lia(t, sc)
+        r = self.len_solver.check(*(sc + [z3.Not(goal)])) == z3.unsat
+        self._len_memo[key] = (n_facts, r, t)
+        return r
 
     # ---- decisions --------------------------------------------------------------
     def _next_decision(self):
@@ -278,13 +611,18 @@ class PathState:
             if k is not None:
                 can_t, can_f = k, not k
             else:
-                can_t = self.is_feasible(t)
-                can_f = self.is_feasible(z3.Not(t)) if can_t else True
+                quick = self._fork_by_lengths(t)
+                if quick is not None:
+                    can_t, can_f = quick
+                else:
+                    can_t = self.is_feasible(t)
+                    can_f = self.is_feasible(z3.Not(t)) if can_t else True
                 if can_t != can_f:
                     self._record_known(t, can_t)
             if can_t and can_f:
                 if self.no_fork:
-                    raise Unsupported('case split inside a quantifier body on %s' % str(t)[:300])
+                    self.decisions.append(LOCAL)
+                    return self._local_fork(t)
                 self.pending.append(self.decisions + [False])
                 d = True
             elif can_t:
@@ -295,6 +633,9 @@ class PathState:
                 raise PathAbort()
         elif d == MERGE:
             raise AssertionError('decision log out of sync (merge at fork)')
+        elif d == LOCAL:
+            self.decisions.append(LOCAL)
+            return self._local_fork(t)
         self.decisions.append(d)
         fact = t if d else (t.arg(0) if z3.is_not(t) else z3.Not(t))
         self._add(self._scoped(fact))
@@ -302,18 +643,55 @@ class PathState:
             self.on_fact(fact)
         return d
 
-    def choose(self, n, conds=None):
-        """n-way decision.  ``conds[i]`` (optional) is the z3 condition of alternative i."""
+    def _local_fork(self, t):
+        """A case split inside a quantifier body: decided per local run of the body; the quantifier
+        model runs the body once per combination and merges the values (if-then-else on the conditions)."""
+        if not self.qframes:
+            raise Unsupported('case split inside a quantifier body')
+        qf = self.qframes[-1]
+        i = len(qf.decisions)
+        if i < len(qf.prefix):
+            ld = qf.prefix[i]
+        else:
+            ld = True
+            qf.pending.append([x[1] for x in qf.decisions] + [False])
+        c = t if ld else z3.Not(t)
+        qf.decisions.append((c, ld))
+        self.scopes.append(c)       # removed by the quantifier model at the end of this local run
+        return ld
+
+    def _local_choose(self, feas, conds):
+        if not self.qframes or conds is None:
+            raise Unsupported('case split inside a quantifier body')
+        qf = self.qframes[-1]
+        i = len(qf.decisions)
+        if i < len(qf.prefix):
+            ld = qf.prefix[i]
+        else:
+            ld = feas[0]
+            for alt in feas[1:]:
+                qf.pending.append([x[1] for x in qf.decisions] + [alt])
+        qf.decisions.append((conds[ld], ld))
+        self.scopes.append(conds[ld])
+        return ld
+
+    def choose(self, n, conds=None, assume_feasible=False):
+        """n-way decision.  ``conds[i]`` (optional) is the z3 condition of alternative i.
+        assume_feasible: do not ask the solver which alternatives are feasible (the caller filtered them)."""
         d = self._next_decision()
         if d is None or d == FORCE_FORK:
-            feas = [i for i in range(n) if conds is None or self.is_feasible(conds[i])]
+            feas = [i for i in range(n) if conds is None or assume_feasible or self.is_feasible(conds[i])]
             if not feas:
                 raise PathAbort()
             if len(feas) > 1 and self.no_fork:
-                raise Unsupported('case split inside a quantifier body')
+                self.decisions.append((LOCAL, tuple(feas)))
+                return self._local_choose(feas, conds)
             for j in feas[1:]:
                 self.pending.append(self.decisions + [j])
             d = feas[0]
+        elif isinstance(d, tuple) and d and d[0] == LOCAL:
+            self.decisions.append(d)
+            return self._local_choose(list(d[1]), conds)
         self.decisions.append(d)
         if conds is not None:
             self._add(self._scoped(conds[d]))
@@ -335,12 +713,13 @@ class PathState:
             r = 'T' if k else 'N'
         elif _has_quantifier(t):
             r = 'U'
-        elif self.lenabs.must_hold(t, self.scopes):
-            # (decided on the arithmetic / boolean abstraction only: this is an optimisation that avoids
-            # building a merged formula, not worth a query to the string solver at every `and` / `or`)
+        elif self._fork_by_lengths(t) is not None:
+            r = 'T' if self._fork_by_lengths(t)[0] else 'N'
+            self._record_known(t, r == 'T')
+        elif self.must_hold(t, SITE_TIMEOUT_MS):
             r = 'T'
             self._record_known(t, True)
-        elif self.lenabs.must_hold(z3.Not(t), self.scopes):
+        elif self.must_hold(z3.Not(t), SITE_TIMEOUT_MS):
             r = 'N'
             self._record_known(t, False)
         else:
@@ -370,7 +749,11 @@ class PathState:
             return self
 
         def __exit__(self, et, ev, tb):
-            self.st.scopes.pop()
+            sc = self.st.scopes
+            for k in range(len(sc) - 1, -1, -1):     # conditions of local case splits pushed inside stay
+                if sc[k] is self.t:
+                    del sc[k]
+                    break
             if et is not None and not issubclass(et, (PathAbort, RetryPath, Unsupported)) \
                     and self.site_index is not None:
                 # an exception / control transfer inside a merged operand:
